@@ -66,6 +66,8 @@ def run(ctx):
             bin_idx.append(i)
     dec = binlib.sdecode_many(bin_hex)
     for i, d in zip(bin_idx, dec):
+        if oracle_silent(ctx, "C05-copy", lines[i], d):
+            continue
         if d is None:
             ctx.fail("property", "C05-copy", lines[i][:3000], "binary copy rejected by the independent decoder: " + outs[i][:200], classify_case(lines[i], ""))
     ctx.count("C05-copy", len(lines), [l[:400] for l in lines], agree=ok, sample=lines[4][:160])
@@ -73,3 +75,47 @@ def run(ctx):
 
 def classify_case(line, got):
     return None
+
+
+_run_plain = run
+
+
+def run(ctx):
+    _run_plain(ctx)
+    run_catalog(ctx)
+
+
+def run_catalog(ctx):
+    """sources that declare imports, read with a catalog (exact / newer / older / missing tables): C10's histories"""
+    import c10
+    lines = []
+    seen = set()
+    for h in c10.gen_histories(ctx):
+        for ln in h.lines():
+            if ln not in seen:
+                seen.add(ln)
+                lines.append(ln)
+    rng = ctx.rng
+    if len(lines) > ctx.scale(1500, 20000):
+        lines = rng.sample(lines, ctx.scale(1500, 20000))
+    src = run_go(lines)
+    todo, want = [], []
+    for ln, g in zip(lines, src):
+        tr = iongen.project_trace(g)
+        if not tr.endswith("e0 F e0 F e0") or " u." in (" " + tr) or "[u." in tr or ";u." in tr:
+            continue        # not accepted, or it contains symbols whose text the source does not know
+        t = ln.split(" ")
+        for dst in ("text", "pretty", "binary"):
+            todo.append(" ".join(["copycat", dst, t[2]] + t[3:]))
+            want.append(tr)
+    outs = run_go(todo)
+    back = run_go(["btrav 0 " + o[3:] if o.startswith("ok ") else "btrav 0 x" for o in outs])
+    ok = 0
+    for ln, w, o, b in zip(todo, want, outs, back):
+        if not o.startswith("ok "):
+            ctx.fail("property", "C05-copy-catalog", ln[:3000], "the copy loop failed on an accepted document: " + o[:80])
+        elif iongen.project_trace(b) != w:
+            ctx.fail("property", "C05-copy-catalog", ln[:3000], "copy reads back as '%s' but the source (with its catalog) reads as '%s'" % (iongen.project_trace(b)[:300], w[:300]))
+        else:
+            ok += 1
+    ctx.count("C05-copy-catalog", len(todo), [l[:300] for l in todo], agree=ok)
